@@ -129,6 +129,22 @@ struct StackPointerOffsetAnalysis {
 }
 
 impl StackPointerOffsetAnalysis {
+    // True if the expression is the stack pointer plus or minus constants. Only
+    // then is the new offset independent of the stack pointer's entry value.
+    fn is_translation(&self, expression: &il::Expression) -> bool {
+        match *expression {
+            il::Expression::Scalar(ref scalar) => *scalar == self.stack_pointer,
+            il::Expression::Add(ref lhs, ref rhs) => {
+                (self.is_translation(lhs) && rhs.all_constants())
+                    || (lhs.all_constants() && self.is_translation(rhs))
+            }
+            il::Expression::Sub(ref lhs, ref rhs) => {
+                self.is_translation(lhs) && rhs.all_constants()
+            }
+            _ => false,
+        }
+    }
+
     // Handle an operation for stack pointer offset analysis
     fn handle_operation(
         &self,
@@ -142,9 +158,11 @@ impl StackPointerOffsetAnalysis {
                     match stack_pointer_offset {
                         IntermediateOffset::Top => IntermediateOffset::Top,
                         IntermediateOffset::Value(ref constant) => {
-                            let expr =
-                                src.replace_scalar(&self.stack_pointer, &constant.clone().into())?;
-                            if expr.all_constants() {
+                            if self.is_translation(src) {
+                                let expr = src.replace_scalar(
+                                    &self.stack_pointer,
+                                    &constant.clone().into(),
+                                )?;
                                 IntermediateOffset::Value(eval(&expr)?)
                             } else {
                                 IntermediateOffset::Top
